@@ -98,6 +98,135 @@ def generic_extract(task, ob, m):
     return out
 
 
+def _limit_memory(gb):
+    try:
+        import resource
+        resource.setrlimit(resource.RLIMIT_AS, (gb << 30, gb << 30))
+    except Exception:
+        pass
+
+
+def _guarded_discharge(obs, do_one, opts, K):
+    """Discharge `obs` in K forked children (they inherit the z3 terms) that stream one record per obligation back through a
+    pipe, under a HARD guard: z3's own timeout is soft (polled between solver steps) and on rare inputs one check runs for
+    minutes while allocating tens of GB.  Each child has an address-space limit; the parent watches progress and kills a child
+    that spends longer on ONE obligation than every solver stage together may legitimately take.  The obligation it hung on is
+    retried once with the out-of-process solver only (cvc5, which has its own hard limit); if that dies too it is `unknown`
+    (reach probe: `reachable`) - NEVER a violation.  The remaining obligations of a killed child continue in a fresh child."""
+    import pickle, select, struct
+    if not obs:
+        return []
+
+    def deadline(ob):
+        zt = (1500 if ob.kind == "reach" else opts.get("z3_timeout_ms", 10000)) / 1000.0
+        ct = 3 if ob.kind == "reach" else opts.get("cvc5_timeout_s", 15)
+        return 20 + 4.5 * zt + 2.5 * ct
+
+    def spawn(indices, cvc5_only):
+        r, w = os.pipe()
+        pid = os.fork()
+        if pid == 0:
+            os.close(r)
+            try:
+                try:
+                    import resource
+                    lim = int(opts.get("solver_mem_gb", 8)) << 30
+                    resource.setrlimit(resource.RLIMIT_AS, (lim, lim))
+                except Exception:
+                    pass
+                solve.Z3_DISABLED = cvc5_only
+                with os.fdopen(w, "wb", buffering=0) as f:
+                    for i in indices:
+                        try:
+                            data = pickle.dumps(("ok", i, do_one(obs[i])))
+                        except MemoryError:
+                            data = pickle.dumps(("oom", i, None))
+                        except BaseException:
+                            tb = traceback.format_exc()
+                            data = pickle.dumps(("oom" if "out of memory" in tb else "error", i, tb))
+                        f.write(struct.pack("<Q", len(data)) + data)
+            finally:
+                os._exit(0)
+        os.close(w)
+        return {"pid": pid, "fd": r, "indices": list(indices), "pos": 0, "buf": b"", "t": time.time(), "cvc5_only": cvc5_only}
+
+    def give_up(i, why):
+        ob = obs[i]
+        if ob.kind == "reach":
+            return {"name": ob.name, "kind": "reach", "status": "reachable", "backend": "hard-guard (%s): undecided, counted as reachable" % why, "time": round(deadline(ob), 1),
+                    "tags": [], "line": None, "trace": [list(x) for x in ob.trace], "nhyps": len(ob.hyps)}
+        return {"name": ob.name, "kind": ob.kind, "status": "unknown", "backend": "hard-guard: " + why, "time": round(deadline(ob), 1),
+                "tags": tags_of(ob.name), "line": getattr(ob, "line", None), "trace": [list(x) for x in ob.trace], "nhyps": len(ob.hyps)}
+
+    recs = {}
+    kids = [spawn(range(k, len(obs), K), False) for k in range(max(1, K))]
+
+    def retire(kid, why):
+        """the kid died or was killed while working on indices[pos]"""
+        try:
+            os.kill(kid["pid"], 9)
+        except OSError:
+            pass
+        os.close(kid["fd"])
+        os.waitpid(kid["pid"], 0)
+        rest = kid["indices"][kid["pos"]:]
+        if not rest:
+            return
+        hung, rest = rest[0], rest[1:]
+        if kid["cvc5_only"]:
+            recs[hung] = give_up(hung, why + "; cvc5 alone did not finish either")
+        else:
+            kids.append(spawn([hung], True))
+            kids[-1]["why"] = why
+        if rest:
+            kids.append(spawn(rest, kid["cvc5_only"]))
+            if kid["cvc5_only"]:
+                kids[-1]["why"] = kid.get("why", why)
+
+    while kids:
+        ready = select.select([k["fd"] for k in kids], [], [], 1.0)[0]
+        now = time.time()
+        for kid in list(kids):
+            if kid["fd"] in ready:
+                chunk = os.read(kid["fd"], 1 << 20)
+                if not chunk:                       # EOF: finished, or died (memory limit, crash)
+                    kids.remove(kid)
+                    if kid["pos"] < len(kid["indices"]):
+                        retire(kid, "solver process died (memory limit of %s GB or crash)" % opts.get("solver_mem_gb", 8))
+                    else:
+                        os.close(kid["fd"]); os.waitpid(kid["pid"], 0)
+                    continue
+                kid["buf"] += chunk
+                while len(kid["buf"]) >= 8:
+                    n = struct.unpack("<Q", kid["buf"][:8])[0]
+                    if len(kid["buf"]) < 8 + n:
+                        break
+                    tag, i, rec = pickle.loads(kid["buf"][8:8 + n])
+                    kid["buf"] = kid["buf"][8 + n:]
+                    if tag == "error":
+                        for k2 in kids:
+                            try:
+                                os.kill(k2["pid"], 9)
+                            except OSError:
+                                pass
+                        raise RuntimeError("discharge worker failed:\n" + rec)
+                    if tag == "oom":
+                        if kid["cvc5_only"]:
+                            recs[i] = give_up(i, kid.get("why", "") + "; out of memory")
+                        else:
+                            kids.append(spawn([i], True)); kids[-1]["why"] = "in-process solver ran out of memory"
+                    else:
+                        if kid["cvc5_only"] and rec.get("kind") != "reach":
+                            rec["hard_guard"] = kid.get("why", "in-process solver killed") + "; decided by cvc5 alone"
+                        recs[i] = rec
+                    kid["pos"] += 1
+                    kid["t"] = now
+            elif kid["pos"] < len(kid["indices"]) and now - kid["t"] > deadline(obs[kid["indices"][kid["pos"]]]):
+                kids.remove(kid)
+                retire(kid, "in-process solver exceeded the wall-clock deadline of %.0fs on one obligation" % deadline(obs[kid["indices"][kid["pos"]]]))
+    return [recs[i] for i in range(len(obs))]
+
+
 def _run_task(args):
     """executed in a worker process"""
     mods, cname, receiver, opts = args
@@ -127,13 +256,18 @@ def _run_task(args):
             # once a task has used its solver budget (only happens when many obligations fail), the rest get short timeouts
             if ob.kind == "reach":
                 cr, ct = solve.run_cvc5(solve.to_smt2(ob.hyps, ob.goal), 3)
-                if cr != "unsat":
+                if cr != "unsat" and not solve.Z3_DISABLED:
                     zs = z3.Solver(); zs.set("timeout", 1500); zs.set("smt.mbqi", False)
                     for h in ob.hyps:
                         zs.add(h)
                     cr = "unsat" if zs.check() == z3.unsat else cr
                 return {"name": ob.name, "kind": "reach", "status": "vacuous" if cr == "unsat" else "reachable", "backend": "cvc5/z3", "time": round(ct, 4), "tags": [], "line": None,
                         "trace": [list(x) for x in ob.trace], "nhyps": len(ob.hyps)}
+            if os.environ.get("PYVC_TEST_HANG") and os.environ["PYVC_TEST_HANG"] in ob.name and not solve.Z3_DISABLED:
+                junk = []          # self-test of the hard guard: behave like a runaway in-process solver
+                while True:
+                    if os.environ.get("PYVC_TEST_HANG_MEM"):
+                        junk.append(bytearray(1 << 26))
             over = (time.time() - t_dis) > budget
             solve.discharge(ob, 1500 if over else opts.get("z3_timeout_ms", 10000), 3 if over else opts.get("cvc5_timeout_s", 15),
                             opts.get("cross_check", False) and not over, expect_sat=task.contract.probe, quick_fail=over, cvc5_first=(task.contract.prefer == "cvc5"))
@@ -164,39 +298,7 @@ def _run_task(args):
         if task.contract.probe:
             obs = [ob for ob in obs if any(x in ob.name for x in task.contract.probe_only)]
             out["probe"] = True
-        K = min(int(opts.get("sub_jobs", 8)), max(1, len(obs) // 60))
-        if K <= 1:
-            out["obligations"] = [do_one(ob) for ob in obs]
-        else:
-            # raw fork: children inherit the z3 terms; each discharges every K-th obligation and reports through a pipe
-            import pickle
-            kids = []
-            for k in range(K):
-                r, w = os.pipe()
-                pid = os.fork()
-                if pid == 0:
-                    os.close(r)
-                    try:
-                        recs = [(i, do_one(obs[i])) for i in range(k, len(obs), K)]
-                        data = pickle.dumps(recs)
-                    except BaseException:
-                        data = pickle.dumps(("error", traceback.format_exc()))
-                    with os.fdopen(w, "wb") as f:
-                        f.write(data)
-                    os._exit(0)
-                os.close(w)
-                kids.append((pid, r))
-            allrecs = {}
-            for pid, r in kids:
-                with os.fdopen(r, "rb") as f:
-                    data = f.read()
-                os.waitpid(pid, 0)
-                got = pickle.loads(data)
-                if isinstance(got, tuple) and got and got[0] == "error":
-                    raise RuntimeError("discharge worker failed:\n" + got[1])
-                for i, rec in got:
-                    allrecs[i] = rec
-            out["obligations"] = [allrecs[i] for i in range(len(obs))]
+        out["obligations"] = _guarded_discharge(obs, do_one, opts, min(int(opts.get("sub_jobs", 8)), max(1, len(obs) // 60)))
         reach = [r for r in out["obligations"] if r["kind"] == "reach"]
         if reach:
             out["obligations"] = [r for r in out["obligations"] if r["kind"] != "reach"]
@@ -235,24 +337,31 @@ def _run_lemma(args):
     extract = lemmas[idx][3] if len(lemmas[idx]) > 3 and callable(lemmas[idx][3]) else None
     hints = lemmas[idx][4] if len(lemmas[idx]) > 4 else {}
     ob = engine.Obligation(name, list(hyps), goal, "lemma", [], "lemma")
-    if hints.get("solver") == "cvc5":      # string lemmas: cvc5's string solver first
-        cr, ct = solve.run_cvc5(solve.to_smt2(hyps, goal), opts.get("cvc5_timeout_s", 30) * 2)
-        if cr == "unsat":
-            ob.status, ob.backend, ob.time = "unsat", "cvc5", ct
-    if ob.status is None:
-        solve.discharge(ob, opts.get("z3_timeout_ms", 10000) * 3, opts.get("cvc5_timeout_s", 30), opts.get("cross_check", False))
-    rec = {"name": ob.name, "kind": "lemma", "status": ob.status, "backend": ob.backend, "time": round(ob.time, 4),
-           "tags": tags_of(ob.name), "trace": [], "nhyps": len(hyps), "line": None}
-    if getattr(ob, "cvc5", None):
-        rec["cvc5"] = ob.cvc5
-    if ob.status == "sat":
-        rec["model"] = solve.model_to_dict(ob.model) if ob.model is not None else {}
-        rec["goal"] = str(goal)[:2000]
-        if extract and ob.model is not None:
-            try:
-                rec["extract"] = extract(ob.model)
-            except Exception as e:
-                rec["extract_errors"] = [repr(e)]
+
+    def do_lemma(ob):
+        if hints.get("solver") == "cvc5":      # string lemmas: cvc5's string solver first
+            cr, ct = solve.run_cvc5(solve.to_smt2(hyps, goal), opts.get("cvc5_timeout_s", 30) * 2)
+            if cr == "unsat":
+                ob.status, ob.backend, ob.time = "unsat", "cvc5", ct
+        if ob.status is None:
+            solve.discharge(ob, opts.get("z3_timeout_ms", 10000) * 3, opts.get("cvc5_timeout_s", 30), opts.get("cross_check", False))
+        rec = {"name": ob.name, "kind": "lemma", "status": ob.status, "backend": ob.backend, "time": round(ob.time, 4),
+               "tags": tags_of(ob.name), "trace": [], "nhyps": len(hyps), "line": None}
+        if getattr(ob, "cvc5", None):
+            rec["cvc5"] = ob.cvc5
+        if ob.status == "sat":
+            rec["model"] = solve.model_to_dict(ob.model) if ob.model is not None else {}
+            rec["goal"] = str(goal)[:2000]
+            if extract and ob.model is not None:
+                try:
+                    rec["extract"] = extract(ob.model)
+                except Exception as e:
+                    rec["extract_errors"] = [repr(e)]
+        return rec
+
+    # same hard guard as for function obligations (the deadline is computed from the tripled z3 budget lemmas get)
+    rec = _guarded_discharge([ob], do_lemma, dict(opts, z3_timeout_ms=opts.get("z3_timeout_ms", 10000) * 3, cvc5_timeout_s=opts.get("cvc5_timeout_s", 30) * 2), 1)[0]
+    rec["kind"] = "lemma"
     return {"label": "lemmas", "contract": None, "obligations": [rec], "error": None, "unsupported": None,
             "wall_s": round(time.time() - t0, 3), "lemma": True}
 
@@ -274,6 +383,8 @@ def run_structural(ctx):
     for name, fn in ctx.structural:
         try:
             ok, detail = fn(ctx)
+            if ok is None:      # the syntactic pattern the check is written for is not in the text any more: undecided, not a violation
+                raise Unsupported(f"pattern not recognised: {detail}")
             recs.append({"name": name, "kind": "structural", "status": "unsat" if ok else "sat", "backend": "ast",
                          "time": 0.0, "tags": tags_of(name), "trace": [], "nhyps": 0, "line": None, "goal": detail, "model": {}})
         except Unsupported as e:
@@ -332,10 +443,18 @@ def run_modules(mods, opts, jobs=16):
             results.append(f(a))
     else:
         mpctx = mp.get_context("fork")
-        with mpctx.Pool(min(jobs, len(work))) as pool:
+        # workers get an address-space limit, and the whole group a wall-clock limit: a runaway solver call during VC generation
+        # (feasibility checks) then ends as an engine error (exit 3), never as a hang of the check or a verdict
+        t_end = time.time() + float(opts.get("group_deadline_s", 2400))
+        with mpctx.Pool(min(jobs, len(work)), initializer=_limit_memory, initargs=(int(opts.get("worker_mem_gb", 16)),)) as pool:
             asyncs = [pool.apply_async(f, (a,)) for f, a in work]
-            for a in asyncs:
-                results.append(a.get())
+            for (f, a), r in zip(work, asyncs):
+                try:
+                    results.append(r.get(timeout=max(1.0, t_end - time.time())))
+                except mp.TimeoutError:
+                    results.append({"label": str(a[1]) if f is _run_task else "lemmas", "contract": a[1] if f is _run_task else None, "obligations": [],
+                                    "error": "wall-clock limit of the module group (%ss) reached while this task was still running" % opts.get("group_deadline_s", 2400), "unsupported": None})
+            pool.terminate()
     if ctx.structural:
         results.append(run_structural(ctx))
     return ctx, loaded, results
